@@ -343,7 +343,15 @@ pub fn judge<P: ParamGuard>(
             ));
         }
         None => {
-            out.notes.push(format!("{} {} -> {}", b, unspec.join("+"), if observed_ok { "accepted" } else { "rejected" }));
+            // list the consistency-only boundary points (one questionable value, everything else valid)
+            let about_it = match r_ref.as_ref().err().and_then(|e| (spec.err_param)(e)) {
+                Some(p) => unspec.len() == 1 && unspec[0].starts_with(&format!("{}=", p)),
+                None => true,
+            };
+            if unspec.len() == 1 && out.viols.is_empty() && about_it {
+                let why = if observed_ok { "accepted".to_string() } else { format!("rejected with {}", variant_of(r_ref.as_ref().err().map(|s| s.as_str()).unwrap_or(""))) };
+                out.notes.push(format!("consistency-only: {} {} -> {}", b, unspec[0], why));
+            }
         }
         _ => {}
     }
@@ -352,7 +360,7 @@ pub fn judge<P: ParamGuard>(
     if let Err(e) = &r_ref {
         if let Some(p) = (spec.err_param)(e) {
             if let Some(x) = case.vals.iter().find(|x| x.name == p) {
-                if x.doc == Doc::Valid {
+                if x.doc == Doc::Valid && out.expected == Some(false) {
                     out.notes.push(format!("{} error {} names parameter {} whose value is documented valid", b, variant_of(e), p));
                 }
             }
@@ -396,7 +404,10 @@ pub fn judge<P: ParamGuard>(
             match &u {
                 Ok(Ok(_)) => out.trained += 1,
                 Ok(Err(_)) => out.fit_errors_on_valid += 1,
-                Err(_) => out.panics_on_valid_both_forms += 1,
+                Err(p) => {
+                    out.panics_on_valid_both_forms += 1;
+                    out.notes.push(format!("{} {} panics on accepted parameters in BOTH forms (outside this property): {} at {}", b, op.name, trunc(p), point));
+                }
             }
         } else {
             let e = match make().check() {
